@@ -155,7 +155,9 @@ impl From<&Instruction> for LocalVariable {
 
 impl From<&AnonymousFunction> for LocalVariable {
     fn from(value: &AnonymousFunction) -> Self {
-        Self::Function(value.params.clone(), value.return_type())
+        // `ReturnType::return_type` of a function literal is the function's type, not its result type
+        let return_type = value.return_type().return_type().unwrap();
+        Self::Function(value.params.clone(), return_type)
     }
 }
 
